@@ -63,6 +63,10 @@ Qed.
 (* equality of two terms that agree up to linear integer arithmetic inside the same float / list operations *)
 Ltac zeq := match goal with |- @eq Z _ _ => lia | |- @eq nat _ _ => lia end.
 Ltac deep := first [ reflexivity | zeq | (progress f_equal; deep) ].
+(* the same, also up to commuting the operands of a floating-point product (Hc : forall a b, nmul N a b = nmul N b a) *)
+Ltac deepc Hc :=
+  first [ reflexivity | zeq | (progress f_equal; deepc Hc)
+        | match goal with |- nmul ?N ?a ?b = nmul ?N _ _ => rewrite (Hc a b); f_equal; deepc Hc end ].
 
 (* the two ways the source may write the "window not yet full" test, against the model's Nat.eqb *)
 Ltac split_full :=
@@ -79,6 +83,9 @@ Ltac split_full :=
 Section Stats.
 Context {T : Type} (N : NumOps T).
 Hypothesis Hone : nofZ N 1 = n_one N.
+(* a floating-point product does not depend on the order of its operands (true of the reals and of IEEE arithmetic): a
+   source that writes `data_.size() * double(multiplier_)` denotes the same state transformer *)
+Hypothesis Hcomm : forall a b : T, nmul N a b = nmul N b a.
 
 Definition avg_rel (c : @avg_state T) (m : ostate) : Prop :=
   avg_index_ c = Z.of_nat (o_index m) /\ avg_windowSize_ c = Z.of_nat (o_W m) /\
@@ -142,7 +149,7 @@ Lemma tie_avg_update c m v : avg_rel c m ->
   (0 < o_W m)%nat -> Z.of_nat (o_W m) < two64 -> (o_index m < o_W m)%nat ->
   in_s64 (o_sum m + x) -> in_s64 (o_sum (o_update m x)) ->
   avg_rel (src_avg_update N c v) (o_update m x) /\ avg_multiplier_ (src_avg_update N c v) = avg_multiplier_ c.
-Proof.
+Proof using Hcomm.
   intros (Hi & HW & Hd & Hs & Ha) x HWpos HW64 Hidx Hs1 Hs2.
   assert (Hne : o_data (o_update m x) <> []) by (cbn [o_update o_data]; apply ring_write_nonempty; exact HWpos).
   split; [|reflexivity].
@@ -155,7 +162,7 @@ Proof.
   split_full; cbn [negb] in *; unwrap;
     (split; [apply mod_nat; lia|]); (split; [reflexivity|]); (split; [reflexivity|]); (split; [lia|]);
     match goal with |- context [match ?l with [] => None | _ => _ end] => destruct l eqn:El; [congruence|] end;
-    rewrite <- ?El; deep.
+    rewrite <- ?El; deepc Hcomm.
 Qed.
 
 (* ================================================================== OnlineVariance *)
@@ -229,7 +236,7 @@ Lemma tie_var_update c m v : var_rel c m ->
   in_s64 (x * x) -> in_s64 (o_sum m + x) -> in_s64 (o_sumsq m + x * x) ->
   in_s64 (o_sum (o_update m x)) -> in_s64 (o_sumsq (o_update m x)) ->
   var_rel (src_var_update N c v) (o_update m x) /\ var_multiplier_ (src_var_update N c v) = var_multiplier_ c.
-Proof.
+Proof using Hcomm.
   intros (Hi & HW & Hd & Hs & Hq & Hsq & Hw1 & Hm2 & Ha & Hv) x HWpos HW64 Hidx Hlen Hxx Hs1 Hq1 Hs2 Hq2.
   assert (Hne : o_data (o_update m x) <> []) by (cbn [o_update o_data]; apply ring_write_nonempty; exact HWpos).
   split; [|reflexivity].
@@ -242,7 +249,7 @@ Proof.
     (split; [apply mod_nat; lia|]); (split; [reflexivity|]); (split; [reflexivity|]); (split; [lia|]);
     (split; [reflexivity|]); (split; [lia|]); (split; [reflexivity|]); (split; [reflexivity|]);
     match goal with |- context [match ?l with [] => None | _ => _ end] => destruct l eqn:El; [congruence|] end;
-    rewrite <- ?El; split; deep.
+    rewrite <- ?El; split; deepc Hcomm.
 Qed.
 End Stats.
 
@@ -367,6 +374,7 @@ Qed.
 Section History.
 Context {T : Type} (N : NumOps T).
 Hypothesis Hone : nofZ N 1 = n_one N.
+Hypothesis Hcomm : forall a b : T, nmul N a b = nmul N b a.
 
 Definition src_avg_step (c : @avg_state T) (o : oop T) : avg_state :=
   match o with OUpdate v => src_avg_update N c v | OReset => src_avg_reset c end.
@@ -398,7 +406,7 @@ Proof.
     pose proof (o_bnd_update m x Ho Hb) as Hb'.
     destruct (inv_sums_fit W m xs HW0 HW Hinv Hb) as (S1 & S2 & Hidx & HWs & _).
     destruct (inv_sums_fit W _ _ HW0 HW Hinv' Hb') as (S1' & _).
-    destruct (tie_avg_update N c m v Hrel) as [Hrel' Hm'].
+    destruct (tie_avg_update N Hcomm c m v Hrel) as [Hrel' Hm'].
     { rewrite HWs. exact HW0. } { rewrite HWs, two64_val. lia. } { rewrite HWs. exact Hidx. }
     { fold x. unfold in_s64. lia. } { fold x. unfold in_s64. lia. }
     fold x in Hrel'. specialize (IH _ _ _ Hrel' Hinv' Hb'). rewrite Hm' in IH. apply IH. exact Hops'.
@@ -422,7 +430,7 @@ Proof.
     destruct (inv_sums_fit W m xs HW0 HW Hinv Hb) as (S1 & S2 & Hidx & HWs & Hlen).
     destruct (inv_sums_fit W _ _ HW0 HW Hinv' Hb') as (S1' & S2' & _).
     assert (Hxx : 0 <= x * x <= 10000000000000000) by nia.
-    destruct (tie_var_update N c m v Hrel) as [Hrel' Hm'].
+    destruct (tie_var_update N Hcomm c m v Hrel) as [Hrel' Hm'].
     { rewrite HWs. exact HW0. } { rewrite HWs, two64_val. lia. } { rewrite HWs. exact Hidx. } { exact Hlen. }
     { fold x. unfold in_s64. lia. } { fold x. unfold in_s64. lia. } { fold x. unfold in_s64. lia. }
     { fold x. unfold in_s64. lia. } { fold x. unfold in_s64. lia. }
@@ -526,6 +534,8 @@ From Romea Require Import NumR.
 
 Lemma ROps_one : nofZ ROps 1 = n_one ROps.
 Proof. reflexivity. Qed.
+Lemma ROps_comm : forall a b : R, nmul ROps a b = nmul ROps b a.
+Proof. intros a b. apply Rmult_comm. Qed.
 
 Lemma rsum_app a b : rsum (a ++ b) = (rsum a + rsum b)%R.
 Proof. induction a as [|x a IH]; cbn [app rsum]; [ring|]. rewrite IH. ring. Qed.
@@ -555,7 +565,7 @@ Lemma avg_code_real prec W (ops : list (oop R)) : (0 < W)%nat -> (W <= 64)%nat -
   src_avg_getAverage c = Some (rsum (map (fun z => IZR z / IZR mult) L) / INR (length L)).
 Proof.
   intros HW0 HW mult Hm Hops c L HL.
-  destruct (avg_code_window ROps ROps_one prec W ops HW0 HW Hops) as (_ & _ & _ & _ & G). fold mult c L in G.
+  destruct (avg_code_window ROps ROps_one ROps_comm prec W ops HW0 HW Hops) as (_ & _ & _ & _ & G). fold mult c L in G.
   rewrite G. pose proof (lastn_length W (since_reset (map (trunc_op ROps mult) ops) [])) as Len. fold L in Len.
   destruct L as [|a l] eqn:EL; [congruence|]. rewrite <- EL in *. f_equal.
   cbn [ndiv nmul nofZ ROps]. rewrite <- Len. rewrite IZR_zsum, <- INR_IZR_INZ.
@@ -580,7 +590,7 @@ Lemma var_code_real prec W (ops : list (oop R)) : (2 <= W)%nat -> (W <= 64)%nat 
 Proof.
   intros HW2 HW mult Hm Hmr Hops c xs Hfull ys mean.
   assert (HW0 : (0 < W)%nat) by lia.
-  destruct (var_code_window ROps ROps_one prec W ops HW0 HW Hmr Hops) as (_ & _ & _ & _ & _ & _ & Gv & _).
+  destruct (var_code_window ROps ROps_one ROps_comm prec W ops HW0 HW Hmr Hops) as (_ & _ & _ & _ & _ & _ & Gv & _).
   fold mult c in Gv. rewrite Gv. clear Gv.
   set (s := fold_left i_step (map (trunc_op ROps mult) ops) (o_init W)).
   destruct (window_is_last_W W (map (trunc_op ROps mult) ops) HW0) as (V1 & V2 & V3 & V4 & V5). fold xs s in V1, V2, V3, V4, V5.
